@@ -1,11 +1,17 @@
-\* the tree as it is: TLC must find a vote for a block that is not fully valid (a lead for the harness)
+\* the tree before ef885bb: TLC must find a vote for a block that is not fully valid (a lead for the harness)
 SPECIFICATION Spec
 CONSTANTS
   Guard = "AsCoded"
-  Classes <- UpTo2
+  Cmp = "hash"
+  Setups <- SetsOne
+  Blocks <- BlocksUpTo2
+  Seconds <- NoSeconds
   MaxRound = 1
   MaxRestarts = 2
   Sched = "fixed"
+  ByzVotes = "support"
+  Loss = "none"
+  Serve = "prefix"
 INVARIANTS TypeOK VotesOnlyFullyValid
 VIEW View
 CHECK_DEADLOCK FALSE
